@@ -83,6 +83,11 @@ class Ctx:
     def cls(self, *labels):
         self.classes.extend(str(lab) for lab in labels)
 
+    def count(self, label, n=1):
+        """add n to a class counter (for bodies that explore many schedules/points per case)"""
+        self.counters = getattr(self, 'counters', {})
+        self.counters[str(label)] = self.counters.get(str(label), 0) + int(n)
+
     def nt(self, flag=True):
         if flag:
             self.nontrivial = True
